@@ -264,7 +264,7 @@ def build_dual(rng):
     alpha = gen_alpha(rng, m, n, nonneg)
     X, Xdesc = make_domain(rng, n, kind)
     vv = cl.Variable(shape=(m,), name='v')
-    vmode = rng.choice(['var', 'var', 'expr', 'affine', 'affine'])
+    vmode = rng.choice(['var', 'var', 'expr', 'affine', 'affine', 'arith'])
     M, off = np.eye(m), np.zeros(m)
     if vmode == 'var':
         v = vv
@@ -272,6 +272,11 @@ def build_dual(rng):
         if m > 1:
             M[0, 1] = 1.0
         v = M @ vv
+    elif vmode == 'arith':
+        # cells written with ordinary arithmetic, later component first: the atoms of a cell are NOT in increasing id order
+        for i in range(1, m):
+            M[i, i - 1] = 0.5
+        v = Expression([vv[0] + 0.0] + [vv[i] + 0.5 * vv[i - 1] for i in range(1, m)])
     else:
         # general affine image: non-unit coefficients and constant terms (as in v_h = c_h @ v of the constrained dual relaxations)
         M = np.diag([float(rng.choice([0.5, 2.0, 1.0, -1.0, 4.0])) for _ in range(m)])
